@@ -605,10 +605,16 @@ func (g *G) rangeStmt(sc scopeInfo) {
 		subs = append(subs, subj{".Tags", KStr})
 	}
 	if g.O.MapRange {
-		subs = append(subs, subj{"root.One", KInt})
+		subs = append(subs, subj{"root.One", KInt}, subj{"root.Three", KStr}, subj{"root.NoMap", KStr})
 	}
 	s := subs[g.T.Choose(len(subs))]
-	switch g.T.Choose(4) {
+	form := g.T.Choose(4)
+	if s.expr == "root.Three" {
+		form = 0 // the key of a multi-entry map is never bound to a name, not even to '_': dump() and the
+		// "identifier not available in current (map[...])" error text print the scope, and the order of a
+		// map's entries is free
+	}
+	switch form {
 	case 0:
 		g.act("range " + s.expr)
 		in.ctx = s.elem
@@ -884,6 +890,9 @@ func TargetClose(form int) string {
 		return "{{catch}}[CATCH]<cc:{{.}}>{{end}}{{mark(9002)}}"
 	case 2:
 		return "{{catch e}}[CATCH]{{e.Error()}}<cc:{{.}}>{{end}}{{mark(9002)}}"
+	case 4:
+		// a catch clause that names a variable and has a completely empty body
+		return "{{catch e}}{{end}}{{mark(9002)}}"
 	case 3:
 		// the catch body sets the template's return value (which, as documented, does not stop the
 		// rendering); the empty if statement behind the try statement drops that value again, so that
@@ -933,7 +942,9 @@ func (g *G) file(path, role string, extends string, imports []string, visible []
 	}
 	// every root template provides its own definition of block "shared"; included files yield it
 	// without defining it (resolved through the includer's scope at run time)
-	if g.O.Blocks && g.O.Include && (role == "main" || role == "base" || role == "main-target") {
+	if g.O.Blocks && g.O.Include && (role == "main" || role == "base" || role == "main-target") && (g.O.Sites || g.O.TargetTry || g.T.Choose(4) > 0) {
+		// (one root template in four defines no block of its own at this point: a template without
+		// blocks takes the block tables of what it imports and extends)
 		g.emit(fmt.Sprintf("{{block shared()}}[shared:%s]{{end}}", fileTag(path)))
 	}
 	sc := scopeInfo{ctx: KRoot}
